@@ -99,7 +99,7 @@ static int do_exec(Kind kind, const char *file, char *const argv[], char *const 
   snapshot_fds(c, img);
   img->mask = c->mask;
   img->umask_ = c->umask_;
-  for (int s = 1; s <= 64; s++) if (c->disp[s] == D_HANDLER) c->disp[s] = D_DFL;
+  for (int s = 1; s <= 64; s++) { if (c->disp[s] == D_HANDLER) c->disp[s] = D_DFL; c->sa_flags[s] = 0; }
   memcpy(img->disp, c->disp, sizeof img->disp);
   img->t_ns = k->now_ns;
   c->image = img;
@@ -197,7 +197,25 @@ pid_t simk_waitpid(pid_t pid, int *status, int options) {
   Proc *target = nullptr;
   if (pid > 0) { auto it = k->by_pid.find(pid); if (it != k->by_pid.end()) target = it->second; }
   if (k->hooks && libctx(t)) k->hooks->on_waitpid(t, pid, options, target);
-  if (Fault *f = k->fault_for(K_waitpid)) FAIL(K_waitpid, pid, options, 0, f->err, RF_INJECTED);
+  if (Fault *f = k->fault_for(K_waitpid)) {
+    if (f->err == ECHILD) {
+      // "no such child" is only ever true: the child has been collected by somebody else (a SIGCHLD policy of the caller, a
+      // foreign wait).  For a child that has ended that is what happens here; for one still running the call proceeds normally.
+      Proc *c = target && target->ppid == k->caller->pid ? target : nullptr;
+      if (c && c->st == Proc::DYING) k->child_zombify(c);
+      if (c && c->st == Proc::ZOMBIE) {
+        // collected elsewhere; its number stays occupied by an unrelated process (never handed to another child of the caller:
+        // what a stale pid can hit after a foreign reap is the foreign reaper's doing)
+        c->st = Proc::REAPED; c->reaped_ns = k->now_ns; c->auto_reaped = true;
+        Proc *fp = new Proc();
+        fp->uid = (int) k->procs.size(); fp->pid = c->pid; fp->ppid = 0; fp->st = Proc::FOREIGN;
+        k->procs.push_back(fp);
+        k->by_pid[fp->pid] = fp;
+        FAIL(K_waitpid, pid, options, 0, ECHILD, RF_INJECTED);
+      }
+      f->fired = false;
+    } else FAIL(K_waitpid, pid, options, 0, f->err, RF_INJECTED);
+  }
   if (t && t->child) FAIL(K_waitpid, pid, options, 0, ECHILD, 0);
   bool parked = false;
   for (;;) {
@@ -304,8 +322,9 @@ int simk_sigaction(int sig, const struct sigaction *act, struct sigaction *old) 
   if (old) {
     memset(old, 0, sizeof *old);
     old->sa_handler = p->disp[sig] == D_IGN ? SIG_IGN : p->disp[sig] == D_DFL ? SIG_DFL : (void (*)(int)) 0x1000;
+    old->sa_flags = (int) p->sa_flags[sig];
   }
-  if (act) p->disp[sig] = act->sa_handler == SIG_DFL ? D_DFL : act->sa_handler == SIG_IGN ? D_IGN : D_HANDLER;
+  if (act) { p->disp[sig] = act->sa_handler == SIG_DFL ? D_DFL : act->sa_handler == SIG_IGN ? D_IGN : D_HANDLER; p->sa_flags[sig] = (uint32_t) act->sa_flags; }
   k->logrec(K_sigaction, sig, act ? p->disp[sig] : -1, 0, 0, 0);
   return 0;
 }
